@@ -112,7 +112,7 @@ theorem Ab.le_of_le_boundary {a e : Ab} (h : a.le e.boundary = true) : a.le e = 
   simp [Ab.boundary] at this
 
 section
-variable {env : Env κ} {inpS inpW : Bytes} {δ : Nat} {K : Nat → κ → κ → Prop} {Loc : κ → Nat → Prop}
+variable {env : Env κ} {inpS inpW : Bytes} {δ : Nat} {K : Nat → κ → κ → Prop} {Loc : κ → Nat → Nat → TextType → Prop}
 
 theorem preOf_skip (inp : Bytes) (sd : StateDef) (m : M κ) (h : (!sd.enter.isEmpty && !m.c.entered) = false) :
     preOf env inp sd m = (m, none) := by
@@ -305,7 +305,7 @@ theorem memchr_rel (F : Frame inpS inpW δ) (nd : UInt8) {nps npw skip : Nat} (h
 end
 
 section
-variable {env : Env κ} {inpS inpW : Bytes} {δ : Nat} {K : Nat → κ → κ → Prop} {Loc : κ → Nat → Prop}
+variable {env : Env κ} {inpS inpW : Bytes} {δ : Nat} {K : Nat → κ → κ → Prop} {Loc : κ → Nat → Nat → TextType → Prop}
 
 theorem brkParams_mk {sd : StateDef} {d skip : Nat} {ab : Ab} {sm : SeqMode} {ms0 mw0 : M κ}
     (h : MRel δ d skip ab sm ms0 mw0) (hsm : sm = .none ∨ (sm = .stale ∧ hasSeq sd = true)) (X Y : Nat)
@@ -323,7 +323,7 @@ theorem brkParams_mk {sd : StateDef} {d skip : Nat} {ab : Ab} {sm : SeqMode} {ms
 theorem consume_sim (F : Frame inpS inpW δ) (hops : OpsSim env.ops inpS inpW δ K Loc)
     {fs : FlagMap} {st : StateId} {sd : StateDef} {d skip : Nat} {eoi : Bool} {sm : SeqMode} {ms0 mw0 : M κ}
     (cx : StepCtx env.tbl fs st sd ms0.c) (hrel : MRel δ d skip (fs st).2 sm ms0 mw0) (hK : K d ms0.x.sink mw0.x.sink)
-    (hloc : 0 < d → Loc ms0.x.sink (lexStart ms0.r))
+    (hloc : 0 < d → Loc ms0.x.sink ms0.x.prevConsumed (lexStart ms0.r) ms0.c.lastTextType)
     (hsm : sm = .none ∨ (sm = .stale ∧ hasSeq sd = true)) (hdebt : 0 < d → hasEoc sd = true)
     (hskip : 0 < skip → ∃ nd, sd.memchr = some nd ∧ SkipOk nd inpW mw0.c.nextPos skip)
     (hil : ms0.c.isLast = true → Closed inpS inpW δ) (heoi : eoi = false → ms0.c.isLast = false) :
@@ -445,7 +445,7 @@ theorem consume_sim (F : Frame inpS inpW δ) (hops : OpsSim env.ops inpS inpW δ
 end
 
 section
-variable {env : Env κ} {inpS inpW : Bytes} {δ : Nat} {K : Nat → κ → κ → Prop} {Loc : κ → Nat → Prop}
+variable {env : Env κ} {inpS inpW : Bytes} {δ : Nat} {K : Nat → κ → κ → Prop} {Loc : κ → Nat → Nat → TextType → Prop}
 
 /-- **The step lemma.** One state-function invocation from related machines: either both runs make the
 same step, or — only if the split input ends before the whole input — the split run breaks and its
@@ -457,7 +457,7 @@ as `BreakOut`, the whole run staying before the breaking step. -/
 theorem stateFn_sim (F : Frame inpS inpW δ) (hops : OpsSim env.ops inpS inpW δ K Loc) {fs : FlagMap}
     (hwf : WfChunkWith env.tbl fs = true) {d skip : Nat} (eoi : Bool) {ms mw : M κ}
     (hb : BRel env.tbl fs inpW δ d skip ms mw) (hK : K d ms.x.sink mw.x.sink)
-    (hloc : 0 < d → Loc ms.x.sink (lexStart ms.r))
+    (hloc : 0 < d → Loc ms.x.sink ms.x.prevConsumed (lexStart ms.r) ms.c.lastTextType)
     (hil : ms.c.isLast = true → Closed inpS inpW δ) (heoi : eoi = false → ms.c.isLast = false) :
     LockOut env.tbl fs inpW δ K Loc eoi (stateFn env inpS ms) (stateFn env inpW mw) ∨
     ((eoi = true → ¬ Closed inpS inpW δ) ∧ ∃ (x0 : Ctx κ) (mw0 : M κ),
